@@ -135,6 +135,11 @@ func RunGate(behs [][]Step, tr *Trace, env Env, sum *Summary) {
 					pk.Body.SubEvent = packager.Type.Session.Input
 					pk.Body.Info = map[string]any{"DemonID": ag.NameID, "CommandID": "11", "TaskID": fmt.Sprintf("%08X", s.real[r]), "CommandLine": "sleep 1 1", "Arguments": "1;1"}
 					w.TS.DispatchEvent(pk)
+				case "HandOut":
+					rr := w.Request(refdemon.CheckIn(id, w.Keys[id]))
+					if rr.Panic != "" || rr.Timeout {
+						sum.Incidents = append(sum.Incidents, Incident{Behaviour: bi, Step: si, Kind: map[bool]string{true: "hang", false: "panic"}[rr.Timeout], Site: "HandOut", Detail: firstLines(rr.Panic, 14)})
+					}
 				case "Callback":
 					before := w.Snapshot()
 					rr := w.Request(refdemon.Packages(id, w.Keys[id], []refdemon.Sub{gateCallback(c, s.real[r], s.n)}))
